@@ -54,6 +54,82 @@ fn c15_consecutive_calls__complete() {
     kani::cover!(s1 == u32::MAX, "cover.wrap");
 }
 
+// ---- contract (C15, concurrency clause): the per-call contract is stable under INTERFERENCE ------------------
+// Kani executes one thread.  Other threads are modelled rely/guarantee style: every atomic operation on SERIAL_NUM
+// (fetch_add / load / store / swap / compare_exchange / fetch_update are replaced by instrumented stubs that perform
+// the same single atomic step) may be preceded by up to two COMPLETE foreign calls of PrimaryHeader::new, each acting
+// per the sequential contract proved above (draw the counter value, skip 0, leave counter = serial + 1); the serials
+// they hand out are recorded in ghost state.
+// ensures  the serial returned by THIS call differs from every serial handed out to a foreign call that ran between
+//          any two atomic steps of this call  (so a read-modify-write split into load + store is caught: a foreign
+//          call between the load and the store draws the same ticket)
+static mut FOREIGN_TAKEN: [u32; 8] = [0; 8];
+static mut FOREIGN_N: usize = 0;
+fn interfere(a: &std::sync::atomic::AtomicU32) {
+    let k: u8 = kani::any();
+    kani::assume(k <= 2);
+    let mut j = 0u8;
+    while j < k {
+        unsafe {
+            if FOREIGN_N < 8 {
+                let p = a.as_ptr();
+                let c = *p;
+                let s = if c != 0 { c } else { 1 };
+                *p = s.wrapping_add(1);
+                FOREIGN_TAKEN[FOREIGN_N] = s;
+                FOREIGN_N += 1;
+            }
+        }
+        j += 1;
+    }
+}
+fn stub_fetch_add(a: &std::sync::atomic::AtomicU32, v: u32, _o: std::sync::atomic::Ordering) -> u32 {
+    interfere(a);
+    unsafe { let p = a.as_ptr(); let old = *p; *p = old.wrapping_add(v); old }
+}
+fn stub_load(a: &std::sync::atomic::AtomicU32, _o: std::sync::atomic::Ordering) -> u32 {
+    interfere(a);
+    unsafe { *a.as_ptr() }
+}
+fn stub_store(a: &std::sync::atomic::AtomicU32, v: u32, _o: std::sync::atomic::Ordering) {
+    interfere(a);
+    unsafe { *a.as_ptr() = v }
+}
+fn stub_swap(a: &std::sync::atomic::AtomicU32, v: u32, _o: std::sync::atomic::Ordering) -> u32 {
+    interfere(a);
+    unsafe { let p = a.as_ptr(); let old = *p; *p = v; old }
+}
+fn stub_compare_exchange(a: &std::sync::atomic::AtomicU32, cur: u32, new: u32, _s: std::sync::atomic::Ordering,
+                         _f: std::sync::atomic::Ordering) -> core::result::Result<u32, u32> {
+    interfere(a);
+    unsafe { let p = a.as_ptr(); let old = *p; if old == cur { *p = new; Ok(old) } else { Err(old) } }
+}
+// @unit C15.interference props=C15 kind=bounded bound=up-to-2-foreign-calls-before-each-atomic-step fn=zbus::message::header::PrimaryHeader::new timeout=600
+#[cfg(not(verif_skip_c15_interference__f2))]
+#[cfg(kani)]
+#[kani::proof]
+#[kani::stub(std::sync::atomic::Atomic::<u32>::fetch_add, stub_fetch_add)]
+#[kani::stub(std::sync::atomic::Atomic::<u32>::load, stub_load)]
+#[kani::stub(std::sync::atomic::Atomic::<u32>::store, stub_store)]
+#[kani::stub(std::sync::atomic::Atomic::<u32>::swap, stub_swap)]
+#[kani::stub(std::sync::atomic::Atomic::<u32>::compare_exchange, stub_compare_exchange)]
+#[kani::stub(std::sync::atomic::Atomic::<u32>::compare_exchange_weak, stub_compare_exchange)]
+#[kani::unwind(4)]
+fn c15_interference__f2() {
+    let c: u32 = kani::any();
+    unsafe { *SERIAL_NUM.as_ptr() = c; FOREIGN_N = 0; }
+    let s = PrimaryHeader::new(Type::MethodCall, 0).serial_num().get();
+    obl!("C15.interference.nonzero", s != 0);
+    let n = unsafe { FOREIGN_N };
+    let i: usize = kani::any();
+    kani::assume(i < 8);
+    if i < n {
+        obl!("C15.interference.serial_not_handed_out_to_a_concurrent_call", unsafe { FOREIGN_TAKEN[i] } != s);
+    }
+    kani::cover!(n >= 3, "cover.three_foreign_calls");
+    kani::cover!(n >= 1 && c == u32::MAX, "cover.interference_at_wrap");
+}
+
 // @unit CANARY.zbus props=CANARY kind=complete expect=fail timeout=300
 #[cfg(not(verif_skip_canary_zbus_must_fail))]
 #[cfg(kani)]
